@@ -7,6 +7,7 @@ mod batch;
 mod checks;
 mod exprm;
 mod icase;
+mod ihex;
 mod isa;
 mod report;
 mod sut;
